@@ -42,6 +42,9 @@ type c08Outcome struct {
 	success   map[string]bool
 	inPhase   bool
 	inPhaseBy map[int64]bool
+	// evalReceivers: eon -> receivers (sorted, comma separated) for which shuttermint received an
+	// encrypted polynomial evaluation from the victim
+	evalReceivers map[int64]string
 	completed bool
 	crashed   bool
 	inTx      bool
@@ -61,7 +64,7 @@ func c08Execute(r *simkit.Run, n, t, nbyz int, sabotage bool, L int64, tape []in
 	}
 	defer func() { r.C = saved }()
 	r.Reseed(sub)
-	out := &c08Outcome{success: map[string]bool{}, inPhaseBy: map[int64]bool{}}
+	out := &c08Outcome{success: map[string]bool{}, inPhaseBy: map[int64]bool{}, evalReceivers: map[int64]string{}}
 	w := newWorldB(r, n, t, L)
 	defer w.close()
 	var nodes []*bNode
@@ -386,6 +389,19 @@ func c08Execute(r *simkit.Run, n, t, nbyz int, sabotage bool, L int64, tape []in
 	}
 	// (single commitment) + (outbox order) from what shuttermint received
 	commitments := map[uint64][][]byte{}
+	evalRcv := map[int64][]string{}
+	defer func() {
+		for e, l := range evalRcv {
+			sort.Strings(l)
+			var uniq []string
+			for i, x := range l {
+				if i == 0 || x != l[i-1] {
+					uniq = append(uniq, x)
+				}
+			}
+			out.evalReceivers[e] = strings.Join(uniq, ",")
+		}
+	}()
 	lastIdx := -1
 	delivered := map[int64]bool{}
 	sort.Slice(outbox, func(i, j int) bool { return outbox[i].id < outbox[j].id })
@@ -405,6 +421,11 @@ func c08Execute(r *simkit.Run, n, t, nbyz int, sabotage bool, L int64, tape []in
 		if pc := mw.Msg.GetPolyCommitment(); pc != nil {
 			b, _ := proto.Marshal(pc)
 			commitments[pc.Eon] = append(commitments[pc.Eon], b)
+		}
+		if pe := mw.Msg.GetPolyEval(); pe != nil {
+			for _, rcv := range pe.Receivers {
+				evalRcv[int64(pe.Eon)] = append(evalRcv[int64(pe.Eon)], fmt.Sprintf("%x", rcv))
+			}
 		}
 		payload, _ := proto.Marshal(mw.Msg)
 		// identical payloads can be queued more than once (e.g. the check-in for two configs):
@@ -592,6 +613,12 @@ func runC08(r *simkit.Run) {
 				if sub.success[name] != ok {
 					r.Fail("outcome-differs-from-crash-free-twin", "outcome", "crash %s at victim request %d (%s): %s reports success=%t, in the crash-free twin %t (all DKG messages were in phase in both); DKG errors: %v", p.mode, p.at, base.kinds[p.at-1], name, sub.success[name], ok, sub.errors)
 				}
+			}
+			// (everything queued is eventually delivered) the keypers that got an evaluation from the
+			// victim are the same as without the crash: an evaluation that waited in the database for
+			// its receiver's encryption key must still go out after a restart
+			if sub.evalReceivers[e] != base.evalReceivers[e] {
+				r.Fail("evaluations-sent-differ-from-crash-free-twin", "poly-eval-receivers", "crash %s at victim request %d (%s): for eon %d shuttermint received the victim's polynomial evaluations for receivers [%s], in the crash-free twin for [%s] (all DKG messages were in phase in both)", p.mode, p.at, base.kinds[p.at-1], e, sub.evalReceivers[e], base.evalReceivers[e])
 			}
 			r.Probe("outcome-compared")
 		}
